@@ -31,6 +31,7 @@
 ; Routine to do AES key expansion
 
 %include "reg_sizes.asm"
+%include "clear_regs.inc"
 
 [bits 64]
 default rel
@@ -189,6 +190,9 @@ _aes_keyexp_256_sse:
 	movdqu	[EXP_ENC_KEYS + 16*14], xmm1
 	movdqu	[EXP_DEC_KEYS + 16*0], xmm1
 
+%ifdef SAFE_DATA
+	clear_scratch_xmms_sse_asm	; round keys must not stay in registers
+%endif
 	ret
 
 
@@ -283,4 +287,7 @@ _aes_keyexp_256_avx:
 	vmovdqu	[EXP_ENC_KEYS + 16*14], xmm1
 	vmovdqu	[EXP_DEC_KEYS + 16*0], xmm1
 
+%ifdef SAFE_DATA
+	clear_scratch_xmms_avx_asm	; round keys must not stay in registers
+%endif
 	ret
